@@ -205,6 +205,21 @@ func monC11(c *drv.Ctx) {
 			fail("known-field-disturbed", "order: %s; decoded %.200q", shape, fmt.Sprint(got))
 			return
 		}
+		// the decoded struct belongs to the caller: what it does with it (here: adds to and clears the map)
+		// must not show up in the next struct decoded from the same bytes
+		if got.Extra != nil {
+			got.Extra["__added_by_the_owner"] = "x"
+			for k := range orig.Extra {
+				delete(got.Extra, k)
+				break
+			}
+			g3 := base.NewBase()
+			if _, err := g3.FastRead(in); err != nil || !strMapEq(g3.Extra, orig.Extra) {
+				fail("decoded-map-shared", "a Base decoded after the owner of an earlier one changed its Extra map reads %.200q (err=%v)", fmt.Sprint(g3.Extra), err)
+				return
+			}
+			cs.C.Obs("decoded maps modified by their owner", 1)
+		}
 		cs.Count(nu > 0, "base", shape, enc)
 		cs.C.Obs("structs checked", 1)
 		if nu > 0 {
@@ -261,6 +276,15 @@ func monC11(c *drv.Ctx) {
 		if got.StatusMessage != orig.StatusMessage || got.StatusCode != orig.StatusCode || !strMapEq(got.Extra, orig.Extra) {
 			fail("known-field-disturbed", "order: %s; decoded %.200q", shape, fmt.Sprint(got))
 			return
+		}
+		if got.Extra != nil {
+			got.Extra["__added_by_the_owner"] = "x"
+			g3 := base.NewBaseResp()
+			if _, err := g3.FastRead(in); err != nil || !strMapEq(g3.Extra, orig.Extra) {
+				fail("decoded-map-shared", "a BaseResp decoded after the owner of an earlier one changed its Extra map reads %.200q (err=%v)", fmt.Sprint(g3.Extra), err)
+				return
+			}
+			cs.C.Obs("decoded maps modified by their owner", 1)
 		}
 		cs.Count(nu > 0, "baseresp", shape, enc)
 		cs.C.Obs("structs checked", 1)
